@@ -495,6 +495,15 @@ func vf07Worker(t *testing.T, lines []string) (out []string) {
 			} else {
 				bad = true
 			}
+		case f[0] == "acct" && len(f) == 3:
+			u, ok := atoi(f[1])
+			if !ok || u < 0 || u > 2 || !strings.Contains(" ok 530 531 532 533 701 773 775 ", " "+f[2]+" ") {
+				bad = true
+				break
+			}
+			w.cluster.SetAccount(vf07Names[u], f[2])
+		case f[0] == "diag" && len(f) == 2:
+			bad = !w.cluster.SetDiag(f[1])
 		case f[0] == "anon" && len(f) == 2 && (f[1] == "0" || f[1] == "1"):
 			w.cluster.SetAnon(f[1] == "1")
 		case f[0] == "adv" && len(f) == 2:
